@@ -18,18 +18,16 @@ import (
 //
 // Per cell (16-way parallel, cells are independent: own directory, own compiler processes):
 //
-//	write the emitted files to <dir>; generate the driver for this program (cppdrv.go) into <dir>/_verif/main.cpp;
-//	compile + link the driver (which includes the emitted header first) under ASan+UBSan;
-//	  on failure compile <dir>/_verif/tu.cpp, a translation unit that only includes the emitted header:
-//	    that fails too  -> Stage "build"  (the emitted code is rejected by the toolchain; its diagnostics are the log)
-//	    that succeeds   -> Stage "driver" (harness fault: the generated driver does not fit code that itself builds)
+//	write the emitted files to <dir>; compile <dir>/_verif/tu.cpp, a translation unit that only includes the emitted
+//	header, with -fsyntax-only and without any precompiled header:
+//	    that fails      -> Stage "build"  (the emitted code is rejected by the toolchain; its diagnostics are the log)
+//	generate the driver for this program (cppdrv.go) into <dir>/_verif/main.cpp; compile + link it under ASan+UBSan;
+//	    that fails      -> Stage "driver" (harness fault: the generated driver does not fit code that itself builds)
 //	run the driver on inputBytes(c); a non-zero exit, signal, sanitizer report or timeout -> Stage "run".
 //
-// On the success path a cell therefore costs one compiler invocation; the header-only compile is only needed to
-// classify a failure. The runtime headers are precompiled once per (compiler, flags, runtime hash) into
-// <verif>/build/cpp/<stamp>/ and force-included; they are include-guarded, so the emitted `#include "include/codec.hpp"`
-// etc. then cost nothing. Only the runtime's own headers are in the PCH: they are what the emitted header includes
-// anyway, so the PCH cannot hide a missing #include of the emitted code any more than the runtime itself does.
+// The runtime headers are precompiled once per (compiler, flags, runtime hash) into <verif>/build/cpp/<stamp>/ and
+// force-included into the driver build only. Because that force-include would supply an #include the emitted header
+// forgot (e.g. include/checksum.hpp), the header-only compile is not optional: it is what decides "build".
 type cppTarget struct{}
 
 func init() { register(cppTarget{}) }
@@ -233,13 +231,15 @@ func (cppTarget) RunCells(e *Env, cells []*Cell) {
 			}
 			return "", true
 		}
+		// the verdict on the emitted code comes first and from the emitted header alone: the precompiled runtime
+		// headers the driver build force-includes would supply an #include the emitted header forgot
+		if log, ok := headerOnly(); !ok {
+			fail("build", log)
+			return
+		}
 		src, err := CppDriver(c.R, c.Files)
 		if err != nil {
-			if log, ok := headerOnly(); !ok {
-				fail("build", log)
-			} else {
-				fail("driver", "error: driver generation: "+err.Error())
-			}
+			fail("driver", "error: driver generation: "+err.Error())
 			return
 		}
 		mainCpp := filepath.Join(vd, "main.cpp")
@@ -266,7 +266,7 @@ func (cppTarget) RunCells(e *Env, cells []*Cell) {
 			}
 		}
 		t1 := time.Now()
-		so, se, err := Run(dir, cppRunTimeout, cppRunEnv, inputBytes(c), exe)
+		so, se, err := runSegments(c, func(in []byte) ([]byte, []byte, error) { return Run(dir, cppRunTimeout, cppRunEnv, in, exe) })
 		if tf := os.Getenv("VERIF_CPP_TIMING"); tf != "" {
 			// VERIF_CPP_TIMING=<file>: one line per cell that was really built (appended)
 			if f, ferr := os.OpenFile(tf, os.O_APPEND|os.O_CREATE|os.O_WRONLY, 0o644); ferr == nil {
